@@ -106,6 +106,7 @@ func VerifHarness_TriggerRules() {
 		return
 	}
 	errors.VerifReached("analyzed")
+	vrSpansHook(an, code)
 	if faulty {
 		errors.VerifAssert("ill-formed-trigger-statement-rejected", an.hasError)
 	} else {
@@ -187,6 +188,7 @@ func VerifHarness_ImplRules() {
 		return
 	}
 	errors.VerifReached("analyzed")
+	vrSpansHook(an, code)
 	if faulty {
 		errors.VerifAssert("impl-block-not-matching-its-template-rejected", an.hasError)
 	} else {
